@@ -48,6 +48,9 @@ TRUSTED = [
     'dict -> array layout in __new__ (chemgroup_array, set iteration order of group ids, get_interaction look-ups) is not '
     'modelled: chemgroups, Qs, Rs, interactions and index are read from the constructed object',
     'numba compilation: compiled results are compared with the py_func path at 1e-12 on every case where both return',
+    'not modelled: GCEOSActivityCoefficients / GCEOSFugacityCoefficients (third-party thermo EOS objects), '
+    'IdealGasPoyintingCorrectionFactors (not an ideal-returns-one model), GroupActivityCoefficients.activity_coefficients '
+    '(the method that bypasses the gather/scatter wrapper), pickling (__reduce__) and the per-class object cache',
 ]
 
 # ------------------------------------------------------------------ translator hook
@@ -484,6 +487,8 @@ def classify(case, out):
                 ks.append('x-after:' + ('changed' if [F(s) for s in out['obs']['x_after']] != [F(v) for v in case['x']] else 'same'))
             ks.append('jit:' + str(out['real']['jit_agrees']))
         ks += ['standin:%d%d%d' % tuple(s[0] for s in case['si'])]
+    if 'oracle' in out:
+        ks.append('oracle:' + ('holds' if out['oracle'] is None else out['oracle'].split(':')[0]))
     return ks
 
 # ------------------------------------------------------------------ direct oracle (the property on the real objects)
